@@ -203,6 +203,9 @@ type Shape struct {
 	Variant Variant
 	W       Widths
 	Addr64  bool // FLAT: the decoded address operand is a 64-bit VGPR pair (no scalar base)
+	// MaskMode: 0 = the pattern's lane masks; 1 = VCC and the lane-mask SGPR pair are all ones, 2 = all zero
+	// (a wavefront-uniform condition: the value a fast path for "every lane takes the same side" tests for)
+	MaskMode int
 }
 
 func putV(s *State, l, reg int, x uint32) {
@@ -298,6 +301,14 @@ func Build(s *State, sh *Shape, p int, exec uint64, poison bool) {
 	PutS64(s, SRegMask, maskConst[p])
 	PutS64(s, SRegSrc1, uni1Const[p])
 	s.VCC = vccConst[p]
+	switch sh.MaskMode {
+	case 1:
+		s.VCC = math.MaxUint64
+		PutS64(s, SRegMask, math.MaxUint64)
+	case 2:
+		s.VCC = 0
+		PutS64(s, SRegMask, 0)
+	}
 	s.EXEC = exec
 	s.SCC = byte(p & 1)
 	s.M0 = 0
